@@ -786,4 +786,6 @@ def check(rep, F, tier, replay=None):
     _c11.hdr_rule(rep, F)  # addresses are written by hand (no cbor_event frames): their writer / reader agreement is the header table
     from ruleutil import adv_own_rule
     adv_own_rule(rep, F)
+    from ruleutil import reader_order_rule
+    reader_order_rule(rep, F)
     return rep.finish(EXPLANATION, ASSUMPTIONS, trusted_base=["csl-facts driver (HIR dump of the type-checked crate)", "cbor_event Serializer semantics (one call = one item)", "tables/e2_audited.json"])
